@@ -138,9 +138,9 @@ class Join(BinaryOperation):
     def _finish_apply(self, lhs: Relation, rhs: Relation) -> Relation:
         # Docstring inherited.
         if lhs.is_join_identity:
-            return rhs.with_rows_satisfying(self.predicate)
+            return rhs if self.predicate.as_trivial() is True else rhs.with_rows_satisfying(self.predicate)
         if rhs.is_join_identity:
-            return lhs.with_rows_satisfying(self.predicate)
+            return lhs if self.predicate.as_trivial() is True else lhs.with_rows_satisfying(self.predicate)
         if lhs.engine != rhs.engine:
             raise EngineError(f"Mismatched join engines: {lhs.engine} != {rhs.engine}.")
         if not self.predicate.is_supported_by(lhs.engine):
